@@ -62,7 +62,7 @@ CLAIMED = {
             "tla-prover"),
     "C11": (MC, "two definitions of acyclicity agree on all graphs with <= 4 nodes (TLC); `analyze` output and task acceptance are compared by "
                 "TLC with Analysis.tla (tightness, documented regularity, private recursion, listed task preconditions) on abstract programs, "
-                "term shapes, long cycles and tasks that violate exactly one condition; refused tasks checked to write no file; the stage machine of `verify` (Pipeline.tla, TLC: 5 invariants, termination) is "
+                "term shapes, long cycles and tasks that violate exactly one condition; refused tasks checked to write no file; the stage machine of `verify` (Pipeline.tla, TLC: 5 invariants, termination; TLAPS: the three stage invariants for any number of problems) is "
                 "replayed on real tasks for every fault x flag scenario with a stand-in prover and the observed events are validated by TracePipeline.tla", "7.1 C11",
             "TLC; the conditions judged are those listed in the property; acceptance is required only for program-vs-program tasks",
             "TLA+ definitions of the analyses + TLC trace validation of analyze output and task acceptance", "tla-pipeline"),
